@@ -57,3 +57,74 @@ def clean_stream(p):
             bad.append({"cfg": list(cfg), "why": why, "chunking": mode, "wire": wire.hex() if len(wire) < 200 else wire.hex()[:200] + "..."}); break
     return {"name": "clean_stream (C02 lemma as bounded stand-in)", "bound": f"{n} generated clean streams: 1..5 well-formed frames (addresses 1..4/1..3 octets, payloads with flag/escape octets, header-only, every 97th a 2047-octet frame), 1..3 flags fill, optional flag-free noise, 4 chunking modes, 4 configurations",
             "evaluations": ev, "distinct_nontrivial": len(distinct), "violations": bad[:2]}
+
+def ideal_functions(wire, cfg, frames):
+    """the ghost functions of props/clean_hdlc.py computed by their recurrences on a concrete stream; also checks the hypotheses (well-formedness at
+    closing flags, domain restrictions) on it.  -> (F0, QN, QE, WAi (index of the frame containing/following p), NCF, hypothesis violations)"""
+    stuffing, abort = cfg; n = len(wire); F0 = wire.index(0x7E)
+    QN = [0] * (n + 2); QE = [False] * (n + 2); WAi = [0] * (n + 2); NCF = [0] * (n + 2); bad = []
+    fi = 0
+    for p in range(F0 + 1, n):
+        c = wire[p]; fr = frames[fi] if fi < len(frames) else b""
+        if stuffing: cf = c == 0x7E and wire[p - 1] != 0x7E
+        else: cf = c == 0x7E and QN[p] >= 2 and (((fr[0] << 8) | fr[1]) & 0x7FF if len(fr) >= 2 else -1) == QN[p]
+        if stuffing:
+            if c == 0x7E: QN[p + 1], QE[p + 1] = 0, False
+            elif QE[p]: QN[p + 1], QE[p + 1] = QN[p] + 1, False
+            elif c == 0x7D: QN[p + 1], QE[p + 1] = QN[p], True
+            else: QN[p + 1], QE[p + 1] = QN[p] + 1, False
+            if c != 0x7E and (QE[p] or c != 0x7D):
+                if QN[p] >= len(fr) or fr[QN[p]] != (c ^ 0x20 if QE[p] else c): bad.append(f"content hypothesis fails at {p}")
+        else:
+            delim = c == 0x7E and (QN[p] == 0 or cf)
+            QN[p + 1] = 0 if delim else QN[p] + 1
+            if not delim and (QN[p] >= len(fr) or fr[QN[p]] != c): bad.append(f"content hypothesis fails at {p}")
+            if c == 0x7E and QN[p] > 0 and not cf:
+                cp = sp.ctrl_pos(fr[:QN[p]])
+                if cp is None or not QN[p] > cp + 2: bad.append(f"flag inside the header at {p} (outside the domain)")
+                if abort and wire[p - 1] == 0x7D: bad.append(f"escape octet before a data flag at {p} (outside the domain)")
+        if cf:
+            cp = sp.ctrl_pos(fr)
+            if QE[p] or QN[p] != len(fr) or not sp.valid_frame(fr) or cp is None or not len(fr) > cp + 2 or len(fr) > 2047 or (abort and wire[p - 1] == 0x7D): bad.append(f"well-formedness hypothesis fails at closing flag {p}")
+        if QN[p + 1] > 2047: bad.append(f"length bound fails at {p}")
+        NCF[p + 1] = NCF[p] + (1 if cf else 0)
+        fi2 = fi + (1 if cf else 0); WAi[p] = fi; WAi[p + 1] = fi2; fi = fi2
+    return F0, QN, QE, WAi, NCF, bad
+
+def ideal_check(p):
+    """the clean-stream contract of read() (props/clean_hdlc.py) evaluated on the real reader: after every call the reader's state is the ideal un-stuffer's
+    state at the stream position (STATE), and the frames returned so far are one per closing flag passed (bounded: generated streams)"""
+    rnd = random.Random(p.get("seed", 0)); n = p.get("n", 300); ev = 0; distinct = set(); bad = []
+    for it in range(n):
+        cfg = (bool(it & 1), bool(it & 2))
+        frames = [gen_frame(rnd, cfg, big=(it % 89 == 0 and k == 0))[0] for k in range(rnd.randrange(1, 6))]
+        noise = bytes(rnd.choice([0x00, 0x7D, 0xA0, 0x55]) for _ in range(rnd.randrange(0, 6))) if rnd.random() < 0.4 else b""
+        wire = noise + b"\x7e" * rnd.randrange(1, 4)
+        for fr in frames: wire += (stuff(fr) if cfg[0] else fr) + b"\x7e" * rnd.randrange(1, 4)
+        F0, QN, QE, WAi, NCF, hyp = ideal_functions(wire, cfg, frames)
+        if hyp: bad.append({"cfg": list(cfg), "why": "the generated clean stream does not satisfy the hypotheses of the lemma: " + hyp[0], "wire": wire.hex()[:200]}); break
+        cuts = sorted(rnd.sample(range(len(wire) + 1), min(len(wire) + 1, rnd.randrange(0, 9)))) if it % 3 else list(range(1, len(wire)))
+        r = hdlc.HdlcFrameReader(*cfg); g = 0; got = []; why = None
+        for a, b in zip([0] + cuts, cuts + [len(wire)]):
+            got += r.read(wire[a:b]); g = b; ev += 1
+            if g <= F0:
+                if r._frame is not None or got: why = f"before the first flag (position {g}): not hunting or frames returned"
+            else:
+                fr = frames[WAi[g]] if WAi[g] < len(frames) else b""
+                if r._frame is None: why = f"position {g}: reader is hunting inside a clean stream"
+                elif r._frame.as_bytes != fr[:QN[g]] or len(r._frame) != QN[g] or bool(r._unescape_next) != QE[g]: why = f"position {g}: state {r._frame.as_bytes.hex()} esc={r._unescape_next}, ideal {fr[:QN[g]].hex()} esc={QE[g]}"
+                elif len(got) != NCF[g]: why = f"position {g}: {len(got)} frames returned, {NCF[g]} closing flags passed"
+            if why: break
+        if not why and ([f.as_bytes for f in got] != frames or not all(f.is_valid for f in got)): why = "frames returned differ from the frames sent"
+        distinct.add((cfg, len(frames), len(wire), len(cuts)))
+        if why:
+            bad.append({"cfg": list(cfg), "why": why, "cuts": cuts[:20], "wire": wire.hex() if len(wire) < 200 else wire.hex()[:200] + "..."}); break
+    return {"name": "ideal_check (contract of read() on clean streams, evaluated on the real reader)", "bound": f"{n} generated clean streams x random chunkings (every third byte-at-a-time), 4 configurations; hypotheses of the lemma checked on every stream",
+            "evaluations": ev, "distinct_nontrivial": len(distinct), "violations": bad[:2]}
+
+def replay_clean_stream(p):
+    r = ideal_check({"seed": 5, "n": 400})
+    if r["violations"]: return {"violated": True, "detail": r["violations"][0], "found_by": "bounded search over generated clean streams"}
+    r2 = clean_stream({"seed": 6, "n": 300})
+    if r2["violations"]: return {"violated": True, "detail": r2["violations"][0], "found_by": "bounded search over generated clean streams"}
+    return {"violated": False, "inconclusive": True, "detail": "no generated clean stream breaks the contract on the real reader"}
